@@ -43,6 +43,8 @@ type Profile struct {
 	// IntArithOnOutputs allows arithmetic / int functions over integers produced by plugins
 	// (known finding K3 while open).
 	IntArithOnOutputs bool
+	// ClosedRefs allows references to closed.result (open finding K14 when never-ending steps exist).
+	ClosedRefs bool
 	// LiteralEnabled allows `enabled: true|false` literals (known finding K11).
 	LiteralEnabled bool
 	// StructFieldRefs allows references *into* crashed.error / deploy_failed.error (known finding K2).
@@ -284,10 +286,14 @@ func (g *genCtx) addStepSources(s *Step, outcome string) {
 				source{expr: out("disabled", "output", "message"), typ: "string", engine: true},
 				source{expr: out("disabled", "output"), typ: "obj", engine: true},
 				source{expr: out("starting", "started"), typ: "obj", engine: true},
-				source{expr: out("closed", "result"), typ: "obj", engine: true},
 				source{expr: &Expr{K: "stage", Step: id, Stage: "starting"}, typ: "stage", engine: true},
 				source{expr: &Expr{K: "stage", Step: id, Stage: "enabling"}, typ: "stage", engine: true},
 			)
+			if g.p.ClosedRefs {
+				g.srcs = append(g.srcs, source{expr: out("closed", "result"), typ: "obj", engine: true})
+			} else {
+				g.excl["K14:ref-to-closed-result"]++
+			}
 			if g.p.StructFieldRefs {
 				g.srcs = append(g.srcs,
 					source{expr: out("crashed", "error", "output"), typ: "string", engine: true, structField: true},
